@@ -192,7 +192,15 @@ def r3_entry_point_last(cx):
     # extra content packs: closed inside the closure, which is created and run (collect) before any manifest write
     cl = [c for c in F.closures_of(f) if "blocks" in c and F.body(c).calls(r"PackRecipient>::close_file$")]
     ok = len(cl) == 1
-    if not cl:
+    if not cl and not b.calls(r"Iterator>::map::<"):
+        # the same step written as a plain loop in finalize itself: the extra creators are finalised and their files closed
+        # inside a loop that no manifest write reaches
+        ok = False
+        ext = [(i, t) for i, t in b.calls(r"PackRecipient>::close_file$")
+               if i in b.reach_after(i) and any(x[0] == "call" and call_is(b.term(x[1]), r"ContentPackCreator::<dyn .*>::finalize$|ContentPackCreator::<.*dyn .*>::finalize$") for x in b.origins(t["args"][0]))]
+        if ext:
+            ok = not any(i in b.reach_after(mi, avoid=err) for mi, _ in M for i, _ in ext)
+    elif not cl:
         # the same step given to `map` by name (`.map(close_extra_pack)`): a function whose body closes the pack file
         ok = False
         for i, t in b.calls(r"Iterator>::map::<"):
